@@ -9,6 +9,20 @@ From Coq Require Import NArith ZArith List Bool.
 Import ListNotations.
 From OBI.C09 Require Import Model.
 
+(** a scratch buffer of n words (its whole capacity) filled with the words of [pat] repeated, as the harness builds it *)
+Fixpoint fill_from (n : nat) (pat cur : list N) : list N :=
+  match n with
+  | O => []
+  | S n' => match cur with
+            | w :: cur' => w :: fill_from n' pat cur'
+            | [] => match pat with
+                    | w :: cur' => w :: fill_from n' pat cur'
+                    | [] => 0%N :: fill_from n' pat []
+                    end
+            end
+  end.
+Definition fillbuf (n : N) (pat : list N) : list N := fill_from (N.to_nat n) pat pat.
+
 (** None = not found, malformed, or a pair with more differences than the bound m (m = -1: no bound) *)
 Definition proj (m s l : Z) : option (Z * Z) :=
   if (s <? 0)%Z || (l <? 0)%Z then None
@@ -28,6 +42,7 @@ Definition case_ok_sl (c : ccase) : bool :=
     let '(d', pos', a1', a2') := d1or0 a b in
     (d' =? d)%Z && (pos' =? pos)%Z && (a1' =? a1)%N && (a2' =? a2)%N
   | CR a b egf rs rl => ref_ok a b egf rs rl
+  | CW w s l o io lp => word_ok w s l o io lp
   end.
 
 Fixpoint mismatches_sl_from (i : nat) (l : list ccase) : list nat :=
